@@ -54,6 +54,18 @@ func c15Scenarios(tier string) []*hist.Scenario {
 	// undo for BOTH replicas to have purged the tombstones the undo refers to
 	// (edit, author syncs, peer syncs twice, author syncs, undo: 2.6k shapes per kind)
 	single(1, 1, 4)
+	// two edits before the undo and a peer that has collected garbage: the
+	// reverse operation of the SECOND edit may have been built next to the
+	// tombstone of the first (arrays in the quick tier: 3.4k shapes per kind)
+	for _, f := range undoFamilies {
+		if f.name != "arr" && tier == "quick" {
+			continue
+		}
+		for _, op := range f.ops {
+			out = append(out, &hist.Scenario{Name: fmt.Sprintf("c15/%s/%s/N2K2U1Y3", f.name, op),
+				N: 2, Init: f.init, Alphabet: []string{op}, K: 2, U: 1, Y: 3, Cfg: never})
+		}
+	}
 	if tier == "quick" {
 		return out
 	}
